@@ -149,6 +149,23 @@ impl Property for C09 {
                 }
             }
         }
+        // every length up to the dense bound
+        for (t, n) in dense_lengths(tier) {
+            if !sh.mine() {
+                continue;
+            }
+            let a = dense_value(n);
+            let mut b = a.clone();
+            b.0[n / 3] = !b.0[n / 3];
+            let mut c2 = a.clone();
+            c2.0[n - 1] = !c2.0[n - 1];
+            c2.0[0] = !c2.0[0];
+            for other in [a.clone(), b, c2, a.zext(n - 65)] {
+                if !f(C09Case::Pair { a: Operand::canon(t, a.clone()), b: Operand::canon(if n % 3 == 0 { TID_A } else { TID_D }, other) }) {
+                    return;
+                }
+            }
+        }
         // operands of thousands of bits and operands more than 1024 bits apart
         for (lt, rt) in [(TID_D, TID_D), (TID_A, TID_A), (TID_D, TID_A), (TID_A, TID_D), (TID_D, 10u8), (10u8, TID_D), (TID_A, 18u8), (18u8, TID_D), (TID_D, 0u8), (TID_A, 10u8)] {
             if !sh.mine() {
